@@ -14,9 +14,11 @@ ordered pair b <= b' (b != b') of enabled buffer vectors of every state.
 
 F11 (DESIGN.md section 5): the three known departures are judged literally.  The
 violation classifier carries a ``kind`` decided from the INPUTS of the failing
-call(s), the pool identifier of the geometry and the measured excess (in units
-of the buffer) rounded up on the 1-2-5 grid, so a known-finding entry can pin
-{geom, kind, excess <= max}; nothing is tolerated by the oracle itself.
+call(s) (cap_polygonised | scale_precision | aspect_ratio | thin_input | other),
+the pool identifier of the geometry ("<root>~<depth>" for chained states) and
+the measured excess (in units of the buffer) rounded up on the 1-2-5 grid, so a
+known-finding entry can pin {geom, kind, excess <= max}; nothing is tolerated by
+the oracle itself.
 """
 from __future__ import annotations
 
@@ -28,7 +30,6 @@ import numpy as np
 import shapely
 from shapely.errors import GEOSException
 
-from soundevent import data
 from soundevent.geometry import buffer_geometry
 
 from mc.runner import Out
@@ -44,7 +45,12 @@ RULE = (
     "accepted result is a new state (deduplicated on coordinates + last vector) expanded in turn while its depth "
     "is below the bound. One evaluation = one expanded state. A state is non-trivial when at least one monotone "
     "pair was judged on it and at least one of its results differs from the state's own coordinates; distinct = "
-    "distinct (type, coordinates, last buffer vector)."
+    "distinct (type, coordinates, last buffer vector). Failing contains_original / bounds_extend / monotone "
+    "judgements of one state are reported as ONE violation per (oracle, kind) carrying the worst excess of the state "
+    "(in buffer units, rounded up on the grid {1,2,5}x10^k with floor 1e-6); kind is decided from the inputs: "
+    "scale_precision (a buffer is 0 and coordinates on that axis >= 1e5), cap_polygonised (point-/line-like input), "
+    "thin_input (polygonal input with a part thinner than 1e-6 buffer units, 2*area/perimeter in the scaled metric), "
+    "aspect_ratio (monotone pair of non-proportional vectors), other. Chained states carry the geom id '<root>~<depth>'."
 )
 ASSUMPTIONS = [
     "pool coordinates are dyadic (times multiples of 1/128 s, frequencies integers) and buffers are the fixed "
@@ -64,9 +70,12 @@ FB = [0.0, 1.0, 125.0, 1e4, 1e7]
 NEG = [-1.0, -(2.0 ** -20)]
 DEPTH = {"quick": 2, "thorough": 3}
 TOL = 1e-9
-LARGE = 2.0 ** 49 / 1e9  # a coordinate x is "large" on a zero-buffer axis when x * 1e9 >= 2**49 (ulp >= 1/8 of the unit buffer)
+LARGE = 1e5  # a coordinate x counts as "large" on a zero-buffer axis when x >= 1e5: x * 1e9 >= 1e14, where a double resolves no better than 1/64 of the unit buffer
 
+THIN = 1e-6  # a polygon part is "thin" when 2*area/perimeter, in the metric scaled by the buffer vector, is below this many buffer units
+GRID_FLOOR = 1e-6  # excess values below this share one bucket
 LINELIKE = ("Point", "MultiPoint", "LineString", "MultiLineString")
+POLYGONAL = ("Polygon", "MultiPolygon")
 TIME_ONLY = ("TimeStamp", "TimeInterval")
 CLOSED = ("TimeStamp", "TimeInterval", "BoundingBox")
 M = MAXF
@@ -148,6 +157,7 @@ def bounds(tier):
         "time_buffers": TB, "freq_buffers": FB, "negative_buffers": NEG,
         "chain_depth": DEPTH[tier], "containment_tolerance_scaled": TOL, "bounds_tolerance_relative": TOL,
         "large_coordinate_threshold_on_zero_buffer_axis": LARGE,
+        "thin_polygon_threshold_buffer_units": THIN, "excess_grid": "{1,2,5}x10^k rounded up, floor %g" % GRID_FLOOR,
     }
 
 
@@ -182,8 +192,8 @@ def grid_up(x):
     """Smallest value of the grid {1, 2, 5} x 10^k that is >= x (x > 0); 'inf' when not finite."""
     if not (x == x) or x == math.inf:
         return "inf"
-    if x <= 0:
-        return 0.0
+    if x <= GRID_FLOOR:
+        return GRID_FLOOR
     k = math.floor(math.log10(x))
     for kk in (k - 1, k, k + 1):
         for m in (1, 2, 5):
@@ -208,7 +218,8 @@ def _probe_points(d):
             pts.append(shapely.get_coordinates(part.interpolate(0.5, normalized=True)))
         elif tid == 3:
             try:
-                mic = shapely.maximum_inscribed_circle(part)
+                x0, y0, x1, y1 = part.bounds
+                mic = shapely.maximum_inscribed_circle(part, tolerance=max(x1 - x0, y1 - y0) / 64.0)
                 pts.append(shapely.get_coordinates(mic)[:1])
             except GEOSException:
                 pts.append(shapely.get_coordinates(part.representative_point()))
@@ -260,22 +271,51 @@ def proportional(b, b2):
     return F(b[0]) * F(b2[1]) == F(b2[0]) * F(b[1]) and (b[0] > 0) == (b2[0] > 0) and (b[1] > 0) == (b2[1] > 0)
 
 
-def kind_single(gtype, ext, b):
-    """Input class of a failing single call (contains_original / bounds_extend), from the inputs only."""
+def thickness(gtype, c, b):
+    """Smallest 2*area/perimeter over the polygon parts of (gtype, c), in units of the buffer vector b
+    (unit 1 on an axis whose buffer is 0).  Computed from the raw coordinates with the shoelace formula."""
+    u = units(b)
+    polys = [c] if gtype == "Polygon" else c
+    best = math.inf
+    for poly in polys:
+        ring = [(p[0] / u[0], p[1] / u[1]) for p in poly[0]]
+        if ring[0] != ring[-1]:
+            ring.append(ring[0])
+        a = 0.0
+        per = 0.0
+        for (x0, y0), (x1, y1) in zip(ring, ring[1:]):
+            a += x0 * y1 - x1 * y0
+            per += math.hypot(x1 - x0, y1 - y0)
+        best = min(best, abs(a) / per if per > 0 else 0.0)
+    return best
+
+
+def kind_single(gtype, c, ext, b):
+    """Input class of a failing single call (contains_original / bounds_extend), decided from the inputs only:
+    scale_precision  a buffer is 0 and the coordinates on that axis are >= LARGE (x * 1e9 loses the unit buffer);
+    cap_polygonised  point-like / line-like input (the only inputs that get round caps);
+    thin_input       polygonal input with a part thinner than THIN buffer units (degenerate at the buffer's scale);
+    other            everything else."""
     if gtype in CLOSED:
         return "other"
     if large_on_zero_axis(ext, b):
         return "scale_precision"
     if gtype in LINELIKE:
         return "cap_polygonised"
+    if gtype in POLYGONAL and thickness(gtype, c, b) < THIN:
+        return "thin_input"
     return "other"
 
 
-def kind_pair(gtype, ext, b, b2):
+def kind_pair(gtype, c, ext, b, b2):
+    """Input class of a failing monotone pair b <= b2: as kind_single for either vector, then
+    aspect_ratio when the two vectors are not proportional (different tb : fb ratio)."""
     if gtype in CLOSED:
         return "other"
     if large_on_zero_axis(ext, b) or large_on_zero_axis(ext, b2):
         return "scale_precision"
+    if gtype in POLYGONAL and min(thickness(gtype, c, b), thickness(gtype, c, b2)) < THIN:
+        return "thin_input"
     if not proportional(b, b2):
         return "aspect_ratio"
     if gtype in LINELIKE:
@@ -362,7 +402,7 @@ def eval_state(root, chain, g):
         ncalls += 1
         # ---- valid_result
         if st != "ok":
-            out.fail("valid_result", [st, r], "a valid geometry", dict(base_cls, kind="exception", type=gtype),
+            out.fail("valid_result", [st, r], "a valid geometry", dict(base_cls, kind="exception", exc=r.split(":")[0], type=gtype),
                      {"tb": tb, "fb": fb})
             continue
         if not isinstance(r, tuple(GEOM_CLASSES.values())) or getattr(r, "type", None) not in GEOM_CLASSES \
@@ -373,9 +413,12 @@ def eval_state(root, chain, g):
         rt = r.type
         rc = raw(r.coordinates)
         nval += 1
-        if not out.expect("valid_result", gm.valid(rt, rc), {"type": rt, "why": gm.why_invalid(rt, rc) if gm.nesting_ok(rt, rc) else "nesting"},
-                          "all t >= 0, all f in [0, MAX]", dict(base_cls, kind="invalid_coordinates", type=gtype),
-                          {"tb": tb, "fb": fb, "coordinates": rc if len(repr(rc)) < 600 else repr(rc)[:600]}):
+        if gm.valid(rt, rc):
+            out.ok("valid_result")
+        else:
+            out.fail("valid_result", {"type": rt, "why": gm.why_invalid(rt, rc)}, "all t >= 0, all f in [0, MAX]",
+                     dict(base_cls, kind="invalid_coordinates", type=gtype),
+                     {"tb": tb, "fb": fb, "coordinates": rc if len(repr(rc)) < 600 else repr(rc)[:600]})
             continue
         rtypes.add(rt)
         rext = gm.extent(rt, rc)
@@ -389,8 +432,7 @@ def eval_state(root, chain, g):
             out.expect("closed_form", okc, {"type": rt, "coordinates": rc}, {"type": et, "coordinates": [float(x) for x in ec]},
                        dict(base_cls, kind="closed_form", type=gtype), {"tb": tb, "fb": fb})
         else:
-            out.expect("closed_form", rt in ("Polygon", "MultiPolygon"), rt, "Polygon or MultiPolygon",
-                       dict(base_cls, kind="result_type", type=gtype), {"tb": tb, "fb": fb})
+            out.vac("closed_form")  # no closed form is stated for the six shapely-backed types
         # ---- bounds_extend (relative tolerance only, measured against the operands' magnitude)
         want = [
             ("t0", max(ext[0] - tb, 0.0), ext[0], tb, -1),
@@ -411,7 +453,7 @@ def eval_state(root, chain, g):
                 out.ok("bounds_extend")
             else:
                 u = bb if bb > 0 else 1.0
-                worst.add("bounds_extend", kind_single(gtype, ext, b), short / u,
+                worst.add("bounds_extend", kind_single(gtype, c, ext, b), short / u,
                           {"tb": tb, "fb": fb, "bound": name, "got": gotv, "want": w, "shortfall_in_buffers": short / u})
         # ---- contains_original
         if time_only:
@@ -427,7 +469,7 @@ def eval_state(root, chain, g):
             elif ex <= TOL:
                 out.ok("contains_original")
             else:
-                worst.add("contains_original", kind_single(gtype, ext, b), ex,
+                worst.add("contains_original", kind_single(gtype, c, ext, b), ex,
                           {"tb": tb, "fb": fb, "uncovered_reach_in_buffers": ex})
         results[b] = (rt, rc, rext, shp)
         succ.append((b, r))
@@ -454,7 +496,7 @@ def eval_state(root, chain, g):
             elif ex <= TOL:
                 out.ok("monotone")
             else:
-                worst.add("monotone", kind_pair(gtype, ext, b, b2), ex,
+                worst.add("monotone", kind_pair(gtype, c, ext, b, b2), ex,
                           {"b": list(b), "b2": list(b2), "protrusion_in_larger_buffers": ex})
 
     # ---- negative_rejected
